@@ -1,5 +1,6 @@
 """C09 — aggregates equal a fold over the selection: merge tables and row-filter parity only."""
 from .util import *
+from .util import _closure_defs as util_closure_defs
 import json
 
 EXPLANATION = """
@@ -25,8 +26,8 @@ sink spells a null / missing BY value, so group counts do not add up to COUNT.
 (i) a PER bucket that starts before 1970 keeps its identity through the coordinator: the shards emit the bucket start as a signed integer; AggregateStreamMerger::parse_aggregate_row reads a negative
 Int64 / Timestamp bucket through a bit-preserving cast and does not send it through scalar_to_u64 (whose None for a negative value is the 'no bucket' key: all pre-1970 buckets would merge into null).
 """
-FLOOR = 12
-REQUIRED = ["C09.a1", "C09.a2", "C09.a3", "C09.b", "C09.c", "C09.d", "C09.e", "C09.f", "C09.g", "C09.h", "C09.i", "C09/C07.h"]
+FLOOR = 14
+REQUIRED = ["C09.a1", "C09.a2", "C09.a3", "C09.b", "C09.c", "C09.d", "C09.e", "C09.f", "C09.g", "C09.h", "C09.i", "C09.j", "C09.k", "C09/C07.h"]
 
 
 def run(ctx):
@@ -365,3 +366,70 @@ def run(ctx):
             return [("negative-bucket-becomes-null", "parse_aggregate_row reads the bucket column only through scalar_to_u64, which is None for a negative value: every PER bucket that starts before 1970 is merged into the null bucket", None)]
         return []
     ctx.run("C09.i", "K8 GUARD", "AggregateStreamMerger::parse_aggregate_row", "pre-1970 buckets are not merged into the null bucket", i_)
+
+    def j_(inst):
+        """Calendar buckets follow the configured time zone: a local day with a DST switch is 23 or 25 hours long. Under calendar
+        bucketing every bucket start the aggregate sink uses must be the result of CalendarTimeBucketer::bucket_of for that very
+        timestamp - never a remembered start plus a fixed width."""
+        bad = []
+        b = F.fn("sink::aggregate::time_bucketing::bucket_of")
+        rets = b.origins({"m": [0]}) | b.origins({"c": [0]})
+        ok = {l for l in rets if l[0] == "call" and re.search(r"CalendarTimeBucketer::bucket_of$|time_bucketing::naive_bucket_of$", norm_path(l[1]))}
+        other = rets - ok
+        inst.sites.append("bucket_of returns %s" % fmt_leaves(rets))
+        if not ok:
+            raise AnchorMissing("CalendarTimeBucketer::bucket_of / naive_bucket_of as origin of the result of bucket_of")
+        # the ts handed to the bucketer is this call's ts
+        for l in ok:
+            c = b.call_at(l[2])
+            if not any(x[0] == "param" and x[1] == "ts" for a_ in c.args for x in b.origins(a_)):
+                bad.append(("bucket-of-other-timestamp", "bucket_of buckets another value than its ts argument", sp(b, c.bb)))
+        if other:
+            bad.append(("bucket-not-from-bucketer", "aggregate::time_bucketing::bucket_of can return %s instead of the bucketer's answer for this timestamp: a remembered bucket start with an assumed width is wrong for a day / week that contains a DST switch" % fmt_leaves(other), None))
+        return bad
+    ctx.run("C09.j", "K7 PROV", "read::sink::aggregate::time_bucketing::bucket_of", "every bucket start is computed by the bucketer for that timestamp", j_)
+
+    def k_(inst):
+        """For an aggregate QueryPlan::new removes the filter that SINCE added (the sink buckets on its own). Only THAT filter may go: an
+        explicit `WHERE <time field> >= x` of the user has the same shape. The filter dropped must therefore be recognised by the
+        SINCE literal itself (equality with the command's `since`)."""
+        bad = []
+        q = F.fn("QueryPlan::new")
+        base = q.key.split("::{closure")[0]
+        cands = []
+        for k in F.keys():
+            if not k.startswith(base + "::{closure"):
+                continue
+            C = F.fn_exact(k)
+            if C.rec.get("argc", 0) >= 2 and any("FilterGroup" in (l.get("t") or "") for l in C.locals[:4]):
+                rets = C.origins({"m": [0]}) | C.origins({"c": [0]})
+                if any(l[0] == "const" and str(l[1]).startswith("false") for l in rets) or any(c.nname.endswith("::eq") or c.nname.endswith("::ne") for c in C.calls if not c.cleanup):
+                    cands.append(C)
+        retain = [c for c in q.calls if not c.cleanup and c.nname.endswith("Vec::retain")]
+        if not retain:
+            raise AnchorMissing("filter_groups.retain(..) in QueryPlan::new")
+        clos = []
+        for c in retain:
+            for k_ in util_closure_defs(q, c.args[1]):
+                if F.has(k_):
+                    clos.append(F.fn_exact(k_))
+        if not clos:
+            raise AnchorMissing("the closure of filter_groups.retain in QueryPlan::new")
+        for C in clos:
+            ups = [u if isinstance(u, str) else (u.get("n") if isinstance(u, dict) else "") for u in (C.rec.get("upvars") or [])]
+            since_up = [u for u in ups if u and "since" in u]
+            eqs = [c for c in C.calls if not c.cleanup and re.search(r"::(eq|ne)$", c.nname) and any(l[0] == "upvar" and "since" in l[1] for a_ in c.args for l in C.origins(a_, transparent=re.compile(r"as_deref$|as_str$|as_ref$")) | C.origins(a_))]
+            if not eqs:
+                for c in C.calls:
+                    if not c.cleanup and re.search(r"::(eq|ne)$", c.nname):
+                        for a_ in c.args:
+                            for l in C.origins(a_):
+                                if l[0] == "call":
+                                    cc = C.call_at(l[2])
+                                    if cc.args and any(x[0] == "upvar" and "since" in x[1] for x in C.origins(cc.args[0])):
+                                        eqs.append(c)
+            inst.sites.append("%s: captures %s; comparisons with the SINCE literal: %d" % (sp(C, 0), ups, len(eqs)))
+            if not eqs:
+                bad.append(("since-filter-dropped-by-shape", "QueryPlan::new drops a filter group of an aggregate query without comparing its value with the command's SINCE literal: an explicit WHERE <time field> >= x of the user is dropped too (its column is then not loaded and segment rows fail the condition)", sp(C, 0)))
+        return bad
+    ctx.run("C09.k", "K7 PROV", "QueryPlan::new (aggregate: implicit SINCE filter)", "only the filter that SINCE added is removed for an aggregate", k_)
